@@ -321,7 +321,7 @@ func (p *sparser) mul() Expr {
 
 func (p *sparser) unary() Expr {
 	t := p.peek()
-	if t.k == "op" && (t.s == "!" || t.s == "-" || t.s == "^") {
+	if t.k == "op" && (t.s == "!" || t.s == "-" || t.s == "^" || t.s == "*") {
 		p.next()
 		return &EUn{t.s, p.unary()}
 	}
